@@ -63,6 +63,9 @@ func VerifHarness_C08() {
 		}
 	}
 	w.build()
+	if verifShape(5) == 1 {
+		w.priorScan(g)
+	}
 	mark := len(w.J.Calls)
 	_ = w.ctrl.RunOnce()
 	attempted, tainted := w.writeAttempts(mark, "NodeTaint")
@@ -104,6 +107,9 @@ func VerifHarness_C09() {
 	w.symNodes("", g, N, classes, true, []int{0, 2}, false)
 	w.symPods("", g, P, 0, false, -3*w.cpuPerNode, false) // pods may sit on cordoned nodes too
 	w.build()
+	if verifShape(3) == 1 {
+		w.priorScan(g) // e.g. the node was cordoned after an earlier scan had seen it schedulable
+	}
 	s := w.snap(g)
 	verifFreezeClock(w.base+1, 0)
 	mark := len(w.J.Calls)
@@ -164,6 +170,9 @@ func VerifHarness_C10() {
 	}
 	w.symPods("", g, P, 0, false, cpu, false)
 	w.build()
+	if verifShape(4) == 1 {
+		w.priorScan(g) // e.g. the annotation was added after an earlier scan
+	}
 	s := w.snap(g)
 	cs := verifInt("clock.sec", 0, 2)
 	cn := verifInt("clock.nsec", 0, 999999999)
